@@ -24,6 +24,16 @@ WordCol(toks, k) ==
 Indent(toks, lineno) ==
     LET c == WordCol(toks, 1) - 1 IN IF lineno = 1 /\ c = 0 THEN -1 ELSE c
 
+(* Comment attachment (parser.py: push_comment / clear_comment_block /     *)
+(* collect_comment_block): comment lines accumulate, every NEWLINE unit -- *)
+(* a blank line, and the line end after any declaration or bracket --      *)
+(* clears them, a declaration collects what is pending.  Hence a           *)
+(* definition owns exactly the comment lines that stand immediately above  *)
+(* it.  kinds[x] is "c" (comment line), "b" (blank) or "o" (anything else).*)
+RECURSIVE CommentsAbove(_, _)
+CommentsAbove(kinds, line) ==
+    IF line <= 1 \/ kinds[line - 1] # "c" THEN 0 ELSE 1 + CommentsAbove(kinds, line - 1)
+
 (* the style guide: a declaration nested d scopes deep is indented 4*d     *)
 IndentConforms(toks, lineno, depth) ==
     LET i == Indent(toks, lineno) IN i <= 0 \/ i = 4 * depth
